@@ -419,7 +419,9 @@ func (p *idp) mint(ans *AnsSpec, grant string, lg *login, old *rtRec) (map[strin
 	case "audArrayWithClient":
 		ts.Aud = []any{"another-client", lg.clientID}
 	default:
-		if ans.AudArray {
+		if ans.AudMulti {
+			ts.Aud = []any{lg.clientID, "https://api.example/resource"}
+		} else if ans.AudArray {
 			ts.Aud = []any{lg.clientID}
 		} else {
 			ts.Aud = lg.clientID
